@@ -153,6 +153,20 @@ def main(args):
             real[rid] = {"document": doc, "fragment": alt, "respelling_of": frag, "observed": {"outcome": out, "value": copy.deepcopy(v)}}
             ck.count((ex["d"], alt), True)
             rid += 1
+    # a long array: tokens that LOOK like an index beyond 9 (an ASCII digit followed by a digit of another script, by
+    # a superscript, by a full-width digit) are no indices, however many elements there are
+    long_doc = {"list": [{"n": k} for k in range(25)], "11": "an object member called 11"}
+    for tok in ["1\u0660", "1\u0661", "2\u00b2", "1\uff10", "\u0661\u0660", "10", "24", "25", "011", "1 0", "1_0", "+10", "1e1", "0x0A", "١٠"]:
+        for frag in ("/list/" + tok, "/list/" + tok + "/n", "/" + tok):
+            out, v = resolve(js, long_doc, frag)
+            try:
+                rec = {"id": rid, "doc": enc(long_doc), "frag": enc_str(frag), "out": out, "v": enc(v) if out == "value" else {"t": "null"}}
+            except Unencodable:
+                continue
+            recs.append(rec)
+            real[rid] = {"document": long_doc, "fragment": frag, "observed": {"outcome": out, "value": copy.deepcopy(v)}}
+            ck.count(("long", frag), True)
+            rid += 1
     for i in range(n):
         doc = rand_doc(ck.rng, 3)
         frag = rand_fragment(ck.rng, doc)
